@@ -60,6 +60,7 @@ int g_child_ran, g_child_sig; uint64_t g_child_val, g_child_last;
    !(__CPROVER_old(janet_vm.fiber) != (void *)0 && (__CPROVER_old((f)->gc.flags) & JANET_FIBER_FLAG_ROOT)))
 
 /* ---- assumed contracts ------------------------------------------------------------------------------------------- */
+int g_st0; uint64_t g_in0; int g_tup_calls;
 static JanetSignal fib_run_vm_c(JanetFiber *fiber, Janet in)
 /* PROVED at the call site: the automaton edge into ALIVE */
 __CPROVER_requires(FIB_ST(fiber->flags) == JANET_STATUS_ALIVE)
@@ -67,6 +68,19 @@ __CPROVER_requires(janet_vm.fiber == fiber)
 __CPROVER_requires(fiber->child == (void *)0)
 __CPROVER_requires(janet_vm.return_reg != (void *)0 && janet_vm.signal_buf != (void *)0)
 __CPROVER_requires(g_ran == 0)
+/* PROVED at the call site: a fiber that is entered starts with normal signal semantics (signals raised from C inside it
+ * are not coerced to errors because some caller further out is inside janet_call) */
+__CPROVER_requires(janet_vm.coerce_error == 0)
+#ifdef FIB_FIRST_VALUE
+/* PROVED at the call site: the value passed to the first resume of a new fiber arrives unchanged as its first parameter
+ * (as the rest tuple when the function only has a rest parameter) */
+__CPROVER_requires((g_st0 == JANET_STATUS_NEW && g_child_sig == -1 && !janet_checktype(in, JANET_NIL) && FRAME_OF(fiber)->func != (void *)0 &&
+                    FRAME_OF(fiber)->func->def->arity > 0) ==> JBITS(fiber->data[fiber->frame]) == JBITS(in))
+__CPROVER_requires((g_st0 == JANET_STATUS_NEW && g_child_sig == -1 && !janet_checktype(in, JANET_NIL) && FRAME_OF(fiber)->func != (void *)0 &&
+                    FRAME_OF(fiber)->func->def->arity <= 0 && (FRAME_OF(fiber)->func->def->flags & JANET_FUNCDEF_FLAG_VARARG)) ==>
+                   (janet_checktype(fiber->data[fiber->frame], JANET_TUPLE) && g_tup_calls == 1))
+__CPROVER_requires(JBITS(in) == g_in0 || g_child_sig != -1)
+#endif
 /* ASSUMED */
 __CPROVER_assigns(*fiber, FIB_VM, *janet_vm.return_reg, g_ran)
 __CPROVER_ensures(IS_SIGNAL(__CPROVER_return_value))
@@ -83,7 +97,11 @@ __CPROVER_requires(1)
 __CPROVER_assigns(fiber->ev_callback, fiber->ev_state)
 __CPROVER_ensures(1)
 ;
-const Janet *fib_tuple_n_c(const Janet *values, int32_t n) __CPROVER_requires(1) __CPROVER_assigns() __CPROVER_ensures(1);
+/* the rest tuple built for a new fiber holds exactly the resume value */
+const Janet *fib_tuple_n_c(const Janet *values, int32_t n)
+__CPROVER_requires(n == 1 && __CPROVER_r_ok(values, sizeof(Janet)) && (JBITS(values[0]) == g_in0 || g_child_sig != -1))
+__CPROVER_assigns(g_tup_calls)
+__CPROVER_ensures(g_tup_calls == __CPROVER_old(g_tup_calls) + 1);
 const uint8_t *fib_formatc_c(const char *format, ...) __CPROVER_requires(1) __CPROVER_assigns() __CPROVER_ensures(1);
 const uint8_t *fib_cstring_c(const char *str) __CPROVER_requires(1) __CPROVER_assigns() __CPROVER_ensures(1);
 
@@ -107,8 +125,9 @@ __CPROVER_requires(__CPROVER_is_fresh(out, sizeof(Janet))) \
 __CPROVER_requires(FIB_RESUMABLE(FIB_ST(fiber->flags))) \
 __CPROVER_requires(janet_vm.stackn >= 0 && janet_vm.stackn < JANET_RECURSION_GUARD) \
 __CPROVER_requires(g_ran == 0 && g_child_sig == -1) \
+__CPROVER_requires(g_st0 == (int) FIB_ST(fiber->flags) && g_in0 == JBITS(in) && g_tup_calls == 0) \
 __CPROVER_requires(__CPROVER_pointer_equals(g_fiber, fiber)) \
-__CPROVER_assigns(*fiber, *out, FIB_VM, g_ran, g_child_ran, g_child_sig, g_child_val, g_child_last) \
+__CPROVER_assigns(*fiber, *out, FIB_VM, g_ran, g_child_ran, g_child_sig, g_child_val, g_child_last, g_tup_calls) \
 __CPROVER_assigns(fiber->child != (void *)0: *(fiber->child)) \
 /* outside the VM, the only stack slot written is the first parameter slot of the current frame (value passed to a new fiber) */ \
 __CPROVER_assigns(fiber->data[fiber->frame]) \
